@@ -474,6 +474,9 @@ func genGenCase(t *rapid.T, prop string) *genCase {
 	if prop == "C16" && uniform(t, "testfile", 3) == 0 {
 		gc.pkg.Files[len(gc.pkg.Files)-1].Name = "x_test.go"
 	}
+	if prop == "C16" && uniform(t, "staleout", 3) == 0 {
+		gc.pkg.StaleOut = true
+	}
 	if uniform(t, "smap", 2) == 0 && prop != "C16" {
 		gc.mode = "source-map"
 	}
@@ -567,6 +570,16 @@ func runGenCase(gc *genCase, keepDir *string) *genOutcome {
 	}
 	oc.nprogs = len(gc.pkg.Specs())
 	pdir := filepath.Join(mod, "p")
+	if gc.pkg.StaleOut {
+		// an older, much longer generation of some files is already there
+		stale := "//go:build !cff\n\npackage p\n\n" + strings.Repeat("// an older generation of this file was much longer than the new one\n", 20000) +
+			"\n// left over from the older generation\nvar cffStaleMarker = 0\n"
+		for i, f := range gc.pkg.Files {
+			if i%2 == 0 {
+				os.WriteFile(filepath.Join(pdir, genName(f.Name)), []byte(stale), 0o644)
+			}
+		}
+	}
 	before := dirSnapshot(mod)
 	srcs := readDirGo(pdir)
 	out, code, to := run(mod, 120*time.Second, *flagCff, gc.cffArgs()...)
@@ -592,6 +605,13 @@ func runGenCase(gc *genCase, keepDir *string) *genOutcome {
 	}
 	after := dirSnapshot(mod)
 	gens := readDirGo(pdir)
+	if gc.pkg.StaleOut && code == 0 {
+		for n, g := range gens {
+			if strings.Contains(g, "cffStaleMarker") {
+				add("C16", "%s: the output path held an older, longer generation and was not truncated: the new text is followed by the tail of the old file", n)
+			}
+		}
+	}
 
 	// expected verdict per file
 	expectReject := map[string]bool{}
@@ -667,7 +687,7 @@ func runGenCase(gc *genCase, keepDir *string) *genOutcome {
 	}
 	for p, h := range after {
 		if b, ok := before[p]; ok {
-			if b != h {
+			if b != h && !(gc.pkg.StaleOut && allowed[p]) { // (an older generation at a documented output path is replaced)
 				add("C16", "cff modified an existing file: %s", p)
 			}
 		} else if !allowed[p] {
